@@ -121,37 +121,75 @@ def getProperty (C : Codecs V P) (T : KindTable) (p : Props P) (k : Key) : Excep
   | .ok s => .ok (s k)
   | .error e => .error e
 
-/-- `<Element>.set_properties(k = ov)`: a fresh sliver with the one keyword applied (None included: the setter is
-called with None, which raises for `name`), written through `toProps` and merged.  A None value writes nothing, so
-this route does **not** unset. -/
-def setProperties1 (C : Codecs V P) (T : KindTable) (fresh : Fields V) (p : Props P) (k : Key) (ov : Option V) :
-    Except Err (Props P) :=
-  match ov, T.fromRows.find? (fun f => f.key == k) with
-  | none, some f => if f.noneOk then .ok (p.update (toProps C T (fresh.set k none))) else .error "type"
-  | _, _ => .ok (p.update (toProps C T (fresh.set k ov)))
+/-- `sliver.set_properties(**kw)` on the fresh sliver: each keyword through its setter, in order (a None value calls the
+setter with None, which raises for `name`) -/
+def applyKw (T : KindTable) (s : Fields V) : List (Key × Option V) → Except Err (Fields V)
+  | [] => .ok s
+  | (k, ov) :: rest =>
+    match ov, T.fromRows.find? (fun f => f.key == k) with
+    | none, some f => if f.noneOk then applyKw T (s.set k none) rest else .error "type"
+    | _, _ => applyKw T (s.set k ov) rest
 
-/-- `el.<attr> = ov` through the attribute route `r` of the generated route table -/
-def attrAssign (C : Codecs V P) (T : KindTable) (fresh : Fields V) (p : Props P) (r : AttrRoute) (ov : Option V) :
+/-- `<Element>.set_properties(**kw)`: a fresh sliver with the keywords applied, written through `toProps` and merged.
+A None value writes nothing, so this route does **not** unset. -/
+def setProperties (C : Codecs V P) (T : KindTable) (fresh : Fields V) (p : Props P) (kw : List (Key × Option V)) :
     Except Err (Props P) :=
-  match r.form with
-  | .readOnly => .error "attribute"
-  | .imagePair =>
-    -- `set_properties(image_ref=value, image_type=self.get_property('image_type'))`
-    match getProperty C T p "image_type" with
+  match applyKw T fresh kw with
+  | .ok s => .ok (p.update (toProps C T s))
+  | .error e => .error e
+
+/-- the one-keyword case -/
+def setProperties1 (C : Codecs V P) (T : KindTable) (fresh : Fields V) (p : Props P) (k : Key) (ov : Option V) :
+    Except Err (Props P) := setProperties C T fresh p [(k, ov)]
+
+/-- `<Element>.set_property(k, ov)` as element class `E` does it: None goes to `unset_property` when the class routes it
+there (`setNoneUnsets`, probed by the translator), otherwise to the fresh sliver's setter like any value -/
+def setPropertyOpt (C : Codecs V P) (T : KindTable) (E : ElemClass) (fresh : Fields V) (p : Props P) (k : Key) (ov : Option V) :
+    Except Err (Props P) :=
+  match ov with
+  | some v => .ok (setProperty C T fresh p k v)
+  | none => if E.setNoneUnsets then unsetProperty p k else setProperties1 C T fresh p k none
+
+/-- `el.<attr> = ov` through the attribute route `r` of the generated route table.  `wrapNone cls` is the object the
+wrapper class makes from None (only reached when the table says the setter wraps None instead of passing it on). -/
+def attrAssign (C : Codecs V P) (T : KindTable) (E : ElemClass) (wrapNone : String → V) (fresh : Fields V) (p : Props P)
+    (r : AttrRoute) (ov : Option V) : Except Err (Props P) :=
+  let pair (ov : Option V) : Except Err (Props P) :=
+    -- `set_properties(prop=value, partner=self.get_property(partner))`
+    match getProperty C T p r.partner with
     | .error e => .error e
-    | .ok it => .ok (p.update (toProps C T ((fresh.set "image_ref" ov).set "image_type" it)))
-  | _ =>
-    match ov with
-    | none => unsetProperty p r.prop
-    | some v => .ok (setProperty C T fresh p r.prop v)
+    | .ok pv => setProperties C T fresh p [(r.prop, ov), (r.partner, pv)]
+  match ov with
+  | some v =>
+    match r.onValue with
+    | .none => .error "attribute"
+    | .direct => setPropertyOpt C T E fresh p r.prop (some v)
+    | .jsonWrap => setPropertyOpt C T E fresh p r.prop (some v)
+    | .pair => pair (some v)
+  | none =>
+    match r.onNone with
+    | .none => .error "attribute"
+    | .passNone => setPropertyOpt C T E fresh p r.prop none
+    | .unsets => unsetProperty p r.prop
+    | .wraps => setPropertyOpt C T E fresh p r.prop (some (wrapNone r.cls))
+    | .pairNone => pair none
+    | .ignores => .ok p
+
+/-- `el.<attr>` for the `plain` / `dataOf` getters (the `.data` view of a `dataOf` getter is taken by the caller; a
+`cached` getter returns the element's own `_name`, not a graph read) -/
+def attrGet (C : Codecs V P) (T : KindTable) (p : Props P) (r : AttrRoute) : Except Err (Option V) :=
+  getProperty C T p r.prop
 
 end generic
 
-/-- the attribute routes of a kind's element class (generated) -/
-def routesOf (k : String) : List AttrRoute :=
-  match elemRoutes.find? (fun e => e.1 == k) with
-  | some e => e.2
-  | none => []
+/-- the element class of a given name (generated) -/
+def classOf? (n : String) : Option ElemClass := elemClasses.find? (fun e => e.name == n)
+
+/-- the element class the harness uses by default for a sliver kind: the first (base) class of that kind -/
+def baseClassOf (k : String) : ElemClass :=
+  match elemClasses.find? (fun e => e.kind == k) with
+  | some e => e
+  | none => default
 
 /-! ### sliver trees and deep dictionaries -/
 
@@ -302,16 +340,24 @@ def mapE {α β : Type} (f : α → Except Err β) : List α → Except Err (Lis
 section graph
 variable {V P : Type}
 
-/-- `add_node` (rejects an existing node of the same id *and* class) followed by `add_link` to the parent
-(the parent's existence is not modelled: it always exists where this is used) -/
+/-- the graph after `add_node` and, below a parent, `add_link` to it -/
 def addNodeTo (g : AGraph P) (parent : Option String) (id cls rel : String) (props : Props P) : AGraph P :=
   let node' := upd g.node id (g.node id ++ [(cls, props)])
   match parent with
   | none => ⟨node', g.adj⟩
   | some p => ⟨node', upd (upd g.adj p (g.adj p ++ [(rel, id)])) id (g.adj id ++ [(rel, p)])⟩
 
+/-- `add_node` — rejects a node id the graph already holds, whatever the class of the holder (`_find_node` looks nodes
+up by id alone) — followed, below a parent, by `add_link(parent, rel, id)`, which looks both ends up with `_find_node`
+in the graph that now holds the new node: the parent must be there, exactly once (the new node is: its id was free) -/
 def addNode (g : AGraph P) (parent : Option String) (id cls rel : String) (props : Props P) : Except Err (AGraph P) :=
-  if (g.node id).any (fun n => n.1 == cls) then .error "query" else .ok (addNodeTo g parent id cls rel props)
+  if !(g.node id).isEmpty then .error "query"
+  else
+    match parent with
+    | none => .ok (addNodeTo g parent id cls rel props)
+    | some p =>
+      if ((upd g.node id (g.node id ++ [(cls, props)])) p).length == 1 then .ok (addNodeTo g parent id cls rel props)
+      else .error "query"
 
 mutual
 /-- `add_network_node_sliver` / `add_component_sliver` / `add_network_service_sliver` / `add_interface_sliver` -/
